@@ -92,11 +92,63 @@ let do_bs line =
     Buffer.contents out
   | _ -> "badcase"
 
+(* ---- hand-off protocol traces (C07) ----
+   case: ho <side 0|1> <cas 0|1> <first> <n> ; <task> <site> <cnt> ; ...   (arrivals in order;
+   the first n are the initial arrivals).  Each later arrival must be explained by ONE model
+   step of that task (some environment outcome) ending in the pc of the site with the observed
+   counter.  output: ok <final cnt> <E|->  or  reject <index> <why> *)
+let pc_num = function
+  | K.Compute -> 0 | K.Wait -> 1 | K.Hold -> 2 | K.Publish -> 3 | K.Local -> 4
+  | K.Defer1 -> 5 | K.Defer2 -> 6 | K.Done -> 7
+let do_ho line =
+  match split_on_semis line with
+  | ("ho" :: side :: cas :: first :: n :: apierr :: _) :: evs ->
+    let sd = if side = "0" then K.Enc else K.Dec in
+    let casb = cas = "1" in
+    let fz = zs first in
+    let n = int_of_string n in
+    let st = ref (K.init sd fz (nat_of_int n)) in
+    let evs = List.filter (fun e -> e <> []) evs in
+    let rec drop k l = if k = 0 then l else match l with [] -> [] | _ :: t -> drop (k - 1) t in
+    (* initial arrivals: must match the initial pcs *)
+    let init_ok = List.for_all (fun e -> match e with
+        | [t; site; _] -> (match List.nth_opt (!st).K.ts (int_of_string t) with
+            | Some tk -> pc_num tk.K.t_pc = int_of_string site | None -> false)
+        | _ -> false) (List.filteri (fun i _ -> i < n) evs) in
+    if not init_ok then "reject 0 initial-state" else begin
+      (* backtracking search over the environment outcomes (they are not observable at once) *)
+      let deepest = ref 0 and why = ref "" in
+      let rec explain k st evs = match evs with
+        | [] -> if (K.first_error st <> None) = (apierr = "E") then Some st
+                else begin (if k >= !deepest then (deepest := k; why := "api-result-not-explained")); None end
+        | [t; site; c] :: rest ->
+          let ti = int_of_string t and site = int_of_string site and c = Z.of_string c in
+          let try_o o = match K.step sd casb fz st (nat_of_int ti) o with
+            | Some s' ->
+              (match List.nth_opt s'.K.ts ti with
+               | Some tk when pc_num tk.K.t_pc = site && Z.equal (zar_of_z s'.K.cnt) c -> explain (k + 1) s' rest
+               | _ -> None)
+            | None -> None in
+          let rec first_some = function [] -> None | o :: r -> (match try_o o with Some s -> Some s | None -> first_some r) in
+          (match first_some [K.Good; K.Fail; K.EndOfStream; K.Skipped] with
+           | Some s -> Some s
+           | None ->
+             if k >= !deepest then begin deepest := k;
+               why := Printf.sprintf "task=%d site=%d cnt=%s model_cnt=%s" ti site (Z.to_string c) (sz st.K.cnt) end;
+             None)
+        | _ -> None in
+      (match explain n !st (drop n evs) with
+       | Some s -> Printf.sprintf "ok %s %s" (sz s.K.cnt) (match K.first_error s with Some _ -> "E" | None -> "-")
+       | None -> Printf.sprintf "reject %d %s" !deepest !why)
+    end
+  | _ -> "badcase"
+
 let dispatch line =
   match words line with
   | [] -> ""
   | "norm" :: args -> do_norm args
   | "bs" :: _ -> do_bs line
+  | "ho" :: _ -> do_ho line
   | k :: _ -> "unknown " ^ k
 
 let () =
